@@ -2,7 +2,6 @@ package c19
 
 import (
 	"bufio"
-	"bytes"
 	"encoding/json"
 	"fmt"
 	"math/rand"
@@ -78,15 +77,45 @@ var menu = []source{
 	{"uninit-delete-in", `BEGIN { if (!("k" in arr)) print "absent"; arr["k"]; if ("k" in arr) print "present"; delete arr["k"]; print length(arr), x + 0, "[" y "]" }`, "", nil, nil, nil, 0},
 }
 
-func runOnce(prog *parser.Program, s *source, api string) string {
-	var out bytes.Buffer
-	status, err, pv := 0, error(nil), any(nil)
-	func() {
-		defer func() { pv = recover() }()
-		status, err = ExecVia(api, prog, &interp.Config{Stdin: strings.NewReader(s.input), Output: &out, Error: &out,
-			Environ: []string{}, Funcs: s.funcs})
-	}()
-	return fmt.Sprintf("status=%d err=%v panic=%v out=%q", status, err, pv, out.String())
+// shellIDs: sources that START COMMANDS (system, cmd | getline, print | cmd, close) with a command string built from
+// the variable id, and the number of different ids their executions cycle through.  The id -- the command string --
+// is private to an execution (SharedProgram!CmdOf): execution number k of a trace runs with id = 101 + k mod n as
+// "variant" vk, and must produce what a single execution with THAT id produces.
+var shellIDs = map[string]int{"shell-system-getline": 4, "shell-print-pipe": 4}
+
+func init() {
+	menu = append(menu,
+		source{name: "shell-system-getline", src: `BEGIN { system("echo " id); ("echo " id) | getline x; print "got", x; r = (("echo " id) | getline y); print r, "[" y "]"; close("echo " id); ("echo " id) | getline y; print y }`},
+		source{name: "shell-print-pipe", src: `{ print $1 | ("echo " id "; read v; echo $v"); close("echo " id "; read v; echo $v") } END { system("echo end " id) }`, input: "a\nb\n"},
+	)
+}
+
+func varsOf(s *source, k int) []string {
+	if shellIDs[s.name] > 0 {
+		return []string{"id", fmt.Sprint(101 + k)}
+	}
+	return nil
+}
+
+// runOnce: one execution through the named interface; k selects the private variables of the execution (varsOf)
+func runOnce(prog *parser.Program, s *source, api string, k int) string {
+	res := ""
+	for try := 0; try < 3; try++ {
+		var out lockedBuf // see shell.go: os/exec writes a command's output from a goroutine of its own
+		status, err, pv := 0, error(nil), any(nil)
+		func() {
+			defer func() { pv = recover() }()
+			status, err = ExecVia(api, prog, &interp.Config{Stdin: &lockedReader{r: strings.NewReader(s.input)}, Output: &out, Error: &out,
+				Environ: []string{}, Funcs: s.funcs, Vars: varsOf(s, k)})
+		}()
+		res = fmt.Sprintf("status=%d err=%v panic=%v out=%q", status, err, pv, out.String())
+		// a starved machine loses the output of a command (os/exec gives its copying goroutines Cmd.WaitDelay = 250 ms
+		// after the child has exited, and says so): the environment's doing, the execution is repeated
+		if shellIDs[s.name] == 0 || !strings.Contains(res, "WaitDelay expired") {
+			break
+		}
+	}
+	return res
 }
 
 func variantName(v int) string { return fmt.Sprintf("v%d", v) }
@@ -129,6 +158,9 @@ func recordOne(emit func(any), s *source, rounds int) error {
 	if nv < 1 {
 		nv = 1
 	}
+	if shellIDs[s.name] > 0 {
+		nv = shellIDs[s.name]
+	}
 	setVariant := func(k int) {
 		if s.variant != nil {
 			s.variant(s.funcs, k)
@@ -138,7 +170,7 @@ func recordOne(emit func(any), s *source, rounds int) error {
 	solo := map[string]any{}
 	for k := 0; k < nv; k++ {
 		setVariant(k)
-		solo[variantName(k)] = runOnce(own, s, ApiNewExecute)
+		solo[variantName(k)] = runOnce(own, s, ApiNewExecute, k)
 	}
 	d0 := Digest(prog)
 	emit(map[string]any{"ev": "step", "op": "parse", "name": s.name, "digest": d0, "solo": solo, "src": s.src})
@@ -147,7 +179,7 @@ func recordOne(emit func(any), s *source, rounds int) error {
 		setVariant(k)
 		api := Apis[i%len(Apis)]
 		before := Digest(prog)
-		r := runOnce(prog, s, api)
+		r := runOnce(prog, s, api, k)
 		emit(map[string]any{"ev": "step", "op": "exec", "proc": i + 1, "phase": "seq", "api": api, "variant": variantName(k),
 			"before": before, "after": Digest(prog), "result": r})
 	}
@@ -156,6 +188,13 @@ func recordOne(emit func(any), s *source, rounds int) error {
 		proc          int
 		before, after string
 		result        string
+	}
+	// the variant (private variables) of goroutine i: its own command string for sources that start commands
+	concVariant := func(i int) int {
+		if shellIDs[s.name] > 0 {
+			return i % nv
+		}
+		return 0
 	}
 	recs := make([][]rec, G)
 	var wg sync.WaitGroup
@@ -167,7 +206,7 @@ func recordOne(emit func(any), s *source, rounds int) error {
 			<-start
 			for k := 0; k < rounds; k++ {
 				before := Digest(prog)
-				r := runOnce(prog, s, Apis[i%len(Apis)])
+				r := runOnce(prog, s, Apis[i%len(Apis)], concVariant(i))
 				recs[i] = append(recs[i], rec{i + 1, before, Digest(prog), r})
 			}
 		}(i)
@@ -176,7 +215,7 @@ func recordOne(emit func(any), s *source, rounds int) error {
 	wg.Wait()
 	for i := 0; i < G; i++ {
 		for _, r := range recs[i] {
-			emit(map[string]any{"ev": "step", "op": "exec", "proc": r.proc, "phase": "conc", "api": Apis[i%len(Apis)], "variant": variantName(0),
+			emit(map[string]any{"ev": "step", "op": "exec", "proc": r.proc, "phase": "conc", "api": Apis[i%len(Apis)], "variant": variantName(concVariant(i)),
 				"before": r.before, "after": r.after, "result": r.result})
 		}
 	}
